@@ -139,6 +139,47 @@ def _sites():
     s_values_own_item_twice = _values_batch(lambda h: (slice(0, 2), ['changed', h.raw_directives[0].raw_values[2]]))
     del _values_batch
 
+    def _named_claim(field, meth, unclaim_first=False):
+        """A named (un)claim that finds one comment and cannot find another: nothing may have moved when it raises."""
+        def site(f, g):
+            h = edits.P().parse('2000-01-01 *\n    aa: 1\n    ; c1\n    Assets:A  1 USD\n    ; c2\n    Assets:B\n', models.File,
+                                auto_claim_comments=unclaim_first)
+            t = h.raw_directives[0]
+            yield h
+            found = [x for x in h.token_store if isinstance(x, models.BlockComment)]
+            getattr(getattr(t, field), meth)([found[0], models.BlockComment.from_value('stranger'), found[-1]])
+        return site
+    s_named_claim_meta_found_and_missing = _named_claim('raw_meta_with_comments', 'claim_interleaving_comments')
+    s_named_claim_postings_found_and_missing = _named_claim('raw_postings_with_comments', 'claim_interleaving_comments')
+    s_named_unclaim_meta_found_and_missing = _named_claim('raw_meta_with_comments', 'unclaim_interleaving_comments', True)
+    s_named_unclaim_postings_found_and_missing = _named_claim('raw_postings_with_comments', 'unclaim_interleaving_comments', True)
+    del _named_claim
+
+    # nodes that touch exactly one end of the store they live in (a batch pre-check that looks at one end only lets them pass)
+    def s_slice_last_meta_of_free_posting(f, g):
+        donor = models.Posting.from_value('Assets:Z', decimal.Decimal(1), 'USD', meta={'kk': decimal.Decimal(1), 'jj': 'x'})
+        f.raw_directives[1].raw_meta_with_comments[0:2] = [donor.raw_meta[-1]]
+
+    def s_view_slice_last_directive_of_other_file(f, g):
+        h = edits.P().parse('2000-01-01 open Assets:Z\n2000-01-02 close Assets:Z', models.File)   # no final newline
+        f.directives[1:3] = [models.Close.from_value(datetime.date(2001, 1, 1), 'Assets:Q'), h.raw_directives[-1]]
+
+    def s_extend_last_directive_of_other_file(f, g):
+        h = edits.P().parse('2000-01-01 open Assets:Z\n2000-01-02 close Assets:Z', models.File)
+        f.raw_directives.extend([h.raw_directives[-1]])
+
+    def s_append_last_directive_of_other_file(f, g):
+        h = edits.P().parse('2000-01-01 open Assets:Z\n2000-01-02 close Assets:Z', models.File)
+        f.raw_directives.append(h.raw_directives[-1])
+
+    def s_slot_first_token_of_other_model(f, g):
+        h = edits.P().parse('2000-01-01 open Assets:Z', models.Open)
+        f.raw_directives[0].raw_date = h.raw_date
+
+    def s_slot_number_at_start_of_free_amount(f, g):
+        h = edits.P().parse('5 + 6 USD', models.Amount)
+        f.raw_directives[1].raw_postings[1].raw_number = h.raw_number
+
     def s_directive_other_doc(f, g):
         f.raw_directives.append(g.raw_directives[0])
     return {k[2:]: v for k, v in locals().items() if k.startswith('s_')}
@@ -155,6 +196,8 @@ def _run_site(name, fn):
         h = next(it)  # setup part (accepted edits before the call under test); may hand over a document of its own
     if h is not None:
         f = h
+    ids = lambda: [id(t) for t in f.token_store] + [id(t) for t in g.token_store]
+    pre_ids = ids()
     pre = (intro.pr(f), intro.struct(f), intro.pr(g), intro.struct(g))
     try:
         if it is not None:
@@ -173,6 +216,8 @@ def _run_site(name, fn):
             return ('refused', tag, f'probe:{name}:refused-changed-text', f'{tag} raised but the printed text changed')
         if post[1] != pre[1] or post[3] != pre[3]:
             return ('refused', tag, f'probe:{name}:refused-changed-tree', f'{tag} raised but the tree changed')
+        if ids() != pre_ids:
+            return ('refused', tag, f'probe:{name}:refused-moved-tokens', f'{tag} raised but the token sequence (zero-width marks included) changed')
         bad = intro.check_inv(f) + intro.check_inv(g)
         if bad:
             return ('refused', tag, f'probe:{name}:refused-broke-invariant', bad[0][1])
@@ -197,7 +242,10 @@ MUST_REFUSE = {'claim_foreign', 'unclaim_foreign', 'claim_claimed', 'cost_illega
                'cost_per_attached_total_amount', 'cost_per_attached_total_currency', 'cost_per_attached_total_empty',
                'cost_total_attached_unit_currency', 'cost_total_attached_unit_empty', 'cost_total_attached_unit_amount',
                'values_plain_then_attached', 'values_attached_then_plain', 'values_plain_then_dup', 'values_ext_slice_plain_attached',
-               'values_bool_date_then_attached', 'values_own_item_twice'}
+               'values_bool_date_then_attached', 'values_own_item_twice', 'slice_last_meta_of_free_posting',
+               'view_slice_last_directive_of_other_file', 'extend_last_directive_of_other_file', 'append_last_directive_of_other_file',
+               'slot_first_token_of_other_model', 'slot_number_at_start_of_free_amount', 'named_claim_meta_found_and_missing',
+               'named_claim_postings_found_and_missing', 'named_unclaim_meta_found_and_missing', 'named_unclaim_postings_found_and_missing'}
 
 
 def run(ctx):
